@@ -7,19 +7,27 @@ The extractor (harness/cmd/extract) regenerates, on every run and from the tree 
 function: its branching constructs in source order, each guard with its condition and with how its branch ends (`return <err>`,
 `continue`, `panic`, …). The hand-written model mirrors exactly these decisions (its `…Pre` / `…Guards` functions are the
 guards of the handlers, in their order). This theorem says that for the files the property is anchored in
-(x/sao/keeper/msg_server_report_faults.go, x/sao/keeper/msg_server_recover_faults.go, x/node/keeper/fault.go, x/node/keeper/fishing_reward.go, x/node/keeper/node.go, x/node/keeper/params.go) the regenerated skeletons equal the ones the model was written against. A change of a guard, of its
+(x/sao/keeper/msg_server_report_faults.go, x/sao/keeper/msg_server_recover_faults.go, x/node/keeper/fault.go, x/node/keeper/fishing_reward.go, x/node/keeper/node.go, x/node/keeper/params.go; and, because the anchored code calls into them, x_node_types_params_go) the regenerated skeletons equal the ones the model was written against. A change of a guard, of its
 order, or a new or removed branch breaks it: the correspondence then has to be re-established (the check searches the
 histories for a failing input and reports the violation either way).
 -/
 namespace SaoVerif
 
 theorem C19_decision_skeleton_as_modelled :
-    Generated.Skel.x_sao_keeper_msg_server_report_faults_go = Expected.Skel.x_sao_keeper_msg_server_report_faults_go ∧
-    Generated.Skel.x_sao_keeper_msg_server_recover_faults_go = Expected.Skel.x_sao_keeper_msg_server_recover_faults_go ∧
-    Generated.Skel.x_node_keeper_fault_go = Expected.Skel.x_node_keeper_fault_go ∧
-    Generated.Skel.x_node_keeper_fishing_reward_go = Expected.Skel.x_node_keeper_fishing_reward_go ∧
-    Generated.Skel.x_node_keeper_node_go = Expected.Skel.x_node_keeper_node_go ∧
-    Generated.Skel.x_node_keeper_params_go = Expected.Skel.x_node_keeper_params_go := by
+    [Generated.Skel.x_sao_keeper_msg_server_report_faults_go,
+     Generated.Skel.x_sao_keeper_msg_server_recover_faults_go,
+     Generated.Skel.x_node_keeper_fault_go,
+     Generated.Skel.x_node_keeper_fishing_reward_go,
+     Generated.Skel.x_node_keeper_node_go,
+     Generated.Skel.x_node_keeper_params_go,
+     Generated.Skel.x_node_types_params_go] =
+    [Expected.Skel.x_sao_keeper_msg_server_report_faults_go,
+     Expected.Skel.x_sao_keeper_msg_server_recover_faults_go,
+     Expected.Skel.x_node_keeper_fault_go,
+     Expected.Skel.x_node_keeper_fishing_reward_go,
+     Expected.Skel.x_node_keeper_node_go,
+     Expected.Skel.x_node_keeper_params_go,
+     Expected.Skel.x_node_types_params_go] := by
   decide +kernel
 
 end SaoVerif
